@@ -557,6 +557,9 @@ func (v *PolicyVerifier) verifyRelativeForRef(ctx context.Context, firstEntry, l
 						if err := currentPolicy.VerifyNewState(ctx, newPolicy); err != nil {
 							return err
 						}
+						if err := newPolicy.verifyMetadata(ctx); err != nil {
+							return fmt.Errorf("new policy has invalidly signed metadata: %w", err)
+						}
 						slog.Debug("Updating current policy...")
 					} else {
 						slog.Debug("Setting current policy...")
